@@ -6,7 +6,8 @@ from .. import forkrun, tracecheck, actexec
 def conditions(rng):
     return {"mass": rng.choice([1e-6, 1e-3, 1.0, 15.0, 1e3]), "fluence": rng.choice([1e2, 1e5, 1e8, 1e11, 1e13, 1e16, 3.7e9]),
             "cd": rng.choice([0.0, 0.0, 1.0, 70.0, 0.5]), "fast_ratio": rng.choice([0.0, 0.0, 50.0, 10.0]),
-            "exposure": rng.choice([1e-3, 0.1, 1.0, 10.0, 100.0, 1e4, 3.3]), "rests": sorted(rng.sample([0, 1, 24, 360, 1e5, 0.5, 1e3], 2))}
+            "exposure": rng.choice([1e-3, 0.1, 1.0, 10.0, 100.0, 1e4, 3.3]), "rests": sorted(rng.sample([0, 1, 24, 360, 1e5, 0.5, 1e3], 2)),
+            "late": rng.random() < 0.3}
 
 
 def run_items(ctx, items, label):
@@ -20,7 +21,7 @@ def run_items(ctx, items, label):
             return
         for e in evs:
             if e["ev"] == "harness_exc":
-                ctx.violation({"kind": label, "clause": "HarnessFailed", "task": task.get(e["id"].split("#")[0]), "exc": e["exc"]})
+                ctx.violation({"kind": label, "clause": "OneRecordPerTableRow" if "row count mismatch" in e["exc"] else "HarnessFailed", "task": task.get(e["id"].split("#")[0]), "exc": e["exc"]})
             else:
                 events.append(e)
                 ctx.distinct(e["id"])
@@ -107,10 +108,21 @@ def tasks(ctx, quick):
     rows, order = actexec.raw_rows()
     isos = sorted(rows)
     items = []
+    # half of the 32 fresh interpreters start with an explicit activation.init(elements), the others load lazily
+    for k in range(16):
+        items.append({"id": "t%d" % len(items), "kind": "init_first"})
     ncond = 2 if quick else 16
+    from ..dec import to_decimal
     for (Z, A) in isos:
         for k in range(ncond):
             items.append({"id": "t%d" % len(items), "kind": "act", "iso": [Z, A], "cond": conditions(rng), "rel": (k == 0)})
+        # the high-flux, long-exposure corner for strong absorbers (burn-up arguments in the hundreds)
+        big = max(float(to_decimal(r[f])) for r in rows[(Z, A)] for f in ("thermalXS", "resonance", "thermalXS_parent", "resonance_parent"))
+        if big > 300:
+            for fl, ex in ([(1e16, 1e4)] if quick else [(1e16, 1e4), (1e15, 1e4), (1e16, 1e3), (1e15, 1e3)]):
+                c = conditions(rng)
+                c.update(fluence=fl, exposure=ex, cd=rng.choice([0.0, 1.0, 70.0]))
+                items.append({"id": "t%d" % len(items), "kind": "act", "iso": [Z, A], "cond": c, "rel": False})
     forms = ["Co", "Co30Fe70", "H2O", "SiO2", "Au", "NaCl", "Gd2O3", "Eu", "Dy", "C12H22O11", "Co[59]", "Fe[58]2O3", "AgCl", "In", "Mn0.5Ni0.5", "U", "LiF",
              "HDO", "Li[6]3Li7F10", "Co[59]Co2", "Fe[58]Fe9O4", "Cu[63]Cu", "Ag[107]AgCl2", "Eu[151]EuO3", "W[186]W"]
     for i in range(40 if quick else 300):
